@@ -1,29 +1,3 @@
-//! vh-store: checks over the real record store / swarm driver / replication fetcher of
-//! ant-networking, stepped by the harness through the `verif-hooks` feature.
-mod c01;
-mod c02;
-mod c05;
-mod c08;
-mod c10;
-mod c11;
-mod c13q;
-mod c17r;
-mod sim;
-
 fn main() {
-    let cfg = vh_core::RunCfg::from_args();
-    match cfg.prop.as_str() {
-        "C01" => c01::run(cfg),
-        "C02" => c02::run(cfg),
-        "C05" => c05::run(cfg),
-        "C08" => c08::run(cfg),
-        "C10" => c10::run(cfg),
-        "C11" => c11::run(cfg),
-        "C13" => c13q::run(cfg),
-        "C17" => c17r::run(cfg),
-        other => {
-            eprintln!("vh-store: unknown property {other}");
-            std::process::exit(2);
-        }
-    }
+    vh_store::main_entry()
 }
